@@ -18,7 +18,8 @@ RULE = ("each forked case registers extractors (healthy or raising) on a random 
         "destination's tape: per action exactly one 'started' and one end message; failed iff an exception escaped the body; "
         "exception=module.Class, reason=str(exc) when str works; extractor fields = those of the nearest registered class in the MRO "
         "({} plus exactly one eliot:traceback when it raises); start fields only on start, success fields only on succeeded; repeated "
-        "finish adds nothing; the object leaving the block is the raised object. non-trivial = failed with a non-Exception class, or "
+        "finish adds nothing; actions failing inside an extractor keep their own extractor's fields; after an interrupt (non-Exception from a destination) during an "
+        "extractor-failure report later failures still get their fields; the object leaving the block is the raised object. non-trivial = failed with a non-Exception class, or "
         "MRO lookup depth >=2, or repeated finish; distinct by (exception class, lookup depth, style, nesting depth, registration set)")
 ASSUMPTIONS = ["extractors return dicts of JSON-native values", "extractors raise Exception subclasses"]
 BATCH_MATRIX = 1
